@@ -153,6 +153,26 @@ fn rejected_program(rng: &mut Rng, variant: usize) -> Prog {
     Prog { ctx, g, input_types: vec![t.clone(), t], attempts: vec![] }
 }
 
+/// VectorGet on a vector of arrays with an index input: compiled when the index is public, rejected
+/// ("VectorGet can't have a private index") when it is private
+fn vector_get_program(rng: &mut Rng) -> Prog {
+    let ctx = create_context().unwrap();
+    let g = ctx.create_graph().unwrap();
+    let t = array_type(vec![2], *rng.pick(&[UINT8, INT32, UINT64]));
+    let it = scalar_type(UINT64);
+    let a = g.input(t.clone()).unwrap();
+    let idx = g.input(it.clone()).unwrap();
+    let b = a.add(a.clone()).unwrap();
+    let v = g.create_vector(t.clone(), vec![a, b]).unwrap();
+    let e = v.vector_get(idx).unwrap();
+    let o = e.multiply(e.clone()).unwrap();
+    g.set_output_node(o).unwrap();
+    g.finalize().unwrap();
+    ctx.set_main_graph(g.clone()).unwrap();
+    ctx.finalize().unwrap();
+    Prog { ctx, g, input_types: vec![t, it], attempts: vec![] }
+}
+
 fn all_flag_vectors(n: usize) -> Vec<Vec<bool>> {
     (0..(1u32 << n)).map(|m| (0..n).map(|j| m & (1 << j) != 0).collect()).collect()
 }
@@ -258,6 +278,10 @@ pub fn run(tier: &str, rng: &mut Rng, out: &mut Out) {
     for i in 0..n_rej {
         let p = rejected_program(rng, i);
         deep_cases(&p, &[true, i % 2 == 0], "rejected-op", &mut seen, out);
+    }
+    for _ in 0..std::cmp::max(1, n_rej / 6) {
+        let p = vector_get_program(rng);
+        for f in all_flag_vectors(2) { deep_cases(&p, &f, "vector-get-index", &mut seen, out); }
     }
     for i in 0..std::cmp::max(2, n_rej / 3) {
         let p = ring_program(rng, UINT32);
